@@ -465,6 +465,8 @@ func c18(c *Ctx) (*report.Result, error) {
 	res.Assumptions = []string{"the proto/1_22 Go structs are the v1.22 schema", "generated getters Get<Field> return field <Field>"}
 	res.RuleDoc["O18.6"] = "translation, access control and repair keep no memory between messages: no shipped function of the interceptor, proto/compat, auth and collect packages stores into package-level state, receiver fields or sync.Maps after construction - a cache keyed by message type or content makes the treatment of one message depend on the ones before it"
 	checkStateless(c, res, "O18.6", []string{"interceptor", "proto/compat", "auth", "collect"}, map[string]string{})
+	res.RuleDoc["O18.9"] = "the repair works on the message it was called for: RepairUTF8Codec.Unmarshal hands convertAndRepairInvalidUTF8 the result of data.Materialize() on its own payload, and package compat frees no pooled buffer - bytes read from a buffer that went back to the pool are another RPC's bytes by the time the legacy decode reads them, so a failure message comes back 'repaired' with someone else's text or the repair fails"
+	checkCodecPayloadOwned(c, res, "O18.9")
 	res.RuleDoc["O18.8"] = "the repair reaches every message that needs it: nothing but the error class gates it in the codec (same analysis as O17.10) - a size or type condition next to IsInvalidUTF8Error leaves whole messages unrepaired, whatever their failure paths"
 	checkRepairGate(c, res, "O18.8")
 	res.RuleDoc["O18.7"] = "no swallowed error in the files the mechanism lives in: no function returns a nil error on a path on which an error obtained from a call is known to be non-nil (io.EOF from a stream Recv, the normal end of a receive loop, is the one accepted idiom)"
